@@ -127,7 +127,7 @@ func partJSON(p *Part, owner int) []byte {
 func (g *gen) filePart(pInvalid int) *Part {
 	p := g.part(40, pInvalid, false)
 	p.P, p.Set, p.NestX, p.EmbA, p.EmbS, p.Iface, p.BadIface, p.Share = nil, nil, nil, nil, nil, nil, false, false
-	p.SM, p.MM = nil, nil
+	p.SM, p.MM, p.MA = nil, nil, nil
 	if p.NestS == nil && p.NestN == nil {
 		p.NestS = nil
 	}
